@@ -2,9 +2,11 @@
 
 Case = {"struct": tree, "pool": [[shape, dtype], ...], "ops": [op, ...]}
 tree nodes: {"t":"T","i":k} tensor slot from the pool | {"t":"leaf","v":x} | {"t":"list","c":[..]}
-            {"t":"dict","k":[..],"c":[..]} | {"t":"obj","k":[..],"c":[..]} | {"t":"tuple","c":[..]} (opaque)
-ops: ["get_list",u] ["get_flat",u] ["cons_list",u,mode] ["cons_flat",u,mode]
-     mode in ok | short | long | badshape ; u = unique flag
+            {"t":"dict","k":[..],"c":[..]} | {"t":"obj","k":[..],"c":[..]} | {"t":"tuple","c":[..]} (opaque; may hold a list of leaves)
+            {"t":"mleaf","kind":set|bytearray|ndarray,"v":[ints]}  mutable non-tensor content the traversal does not descend into
+ops: ["get_list",u] ["get_flat",u] ["cons_list",u,mode,k,mutate] ["cons_flat",u,mode,layout,mutate]
+     mode in ok | short | long | badshape ; u = unique flag ; layout of the flat argument in contig | offset | strided | column
+     mutate: after a successful rebuild the caller edits, in place, every mutable non-tensor leaf of the RESULT
 Oracle: model traversal written here (independent of xitorch), see DESIGN.md C20.
 """
 from __future__ import annotations
@@ -20,7 +22,10 @@ RULE = ("Hypothesis RuleBasedStateMachine: one Packer per history over a generat
         "(lists/dicts/attribute objects/opaque tuples/non-tensor leaves, depth<=4, <=12 tensor slots filled "
         "from a pool of 1..4 tensors => aliasing patterns), rules = the four public methods x unique flag x "
         "{correct, too short, too long, wrong shape} argument. Non-trivial = history contains a successful "
-        "construct_* on a structure with >=2 tensor slots; distinct by (structure shape, aliasing pattern, op sequence).")
+        "construct_* on a structure with >=2 tensor slots; distinct by (structure shape, aliasing pattern, op sequence). "
+        "The flat argument of construct_from_tensor is supplied contiguous, as an offset slice, with stride 2 or as a matrix column; "
+        "structures carry mutable non-tensor content (sets, bytearrays, numpy arrays, lists inside tuples) that the caller edits in "
+        "the rebuilt structure between rebuilds.")
 ASSUMPTIONS = [
     "containers are tree-shaped (a list/dict/object appears once); only tensors are aliased",
     "tensors inside tuples are opaque to Packer (documented traversal: list elements, dict values, __dict__)",
@@ -46,6 +51,8 @@ def build(tree, pool):
         return pool[tree["i"]]
     if t == "leaf":
         return tree["v"]
+    if t == "mleaf":
+        return build_mleaf(tree)
     if t == "list":
         return [build(c, pool) for c in tree["c"]]
     if t == "tuple":
@@ -58,6 +65,66 @@ def build(tree, pool):
             setattr(o, k, build(c, pool))
         return o
     raise ValueError(t)
+
+
+def build_mleaf(tree):
+    import numpy as np
+    k, v = tree["kind"], tree["v"]
+    return set(v) if k == "set" else bytearray(v) if k == "bytearray" else np.array(v, dtype=np.int64)
+
+
+def mleaf_equal(a, b):
+    import numpy as np
+    if type(a) is not type(b):
+        return False
+    return bool(np.array_equal(a, b)) if isinstance(a, np.ndarray) else a == b
+
+
+MUTABLE_LEAF_TYPES = None
+
+
+def _mtypes():
+    global MUTABLE_LEAF_TYPES
+    if MUTABLE_LEAF_TYPES is None:
+        import numpy as np
+        MUTABLE_LEAF_TYPES = (set, bytearray, np.ndarray)
+    return MUTABLE_LEAF_TYPES
+
+
+def mutate_leaves(obj):
+    """what a caller may do with a structure it was handed: edit its mutable non-tensor content in place"""
+    import numpy as np
+    n = 0
+    if isinstance(obj, torch.Tensor):
+        return 0
+    if isinstance(obj, set):
+        obj.add(99)
+        return 1
+    if isinstance(obj, bytearray):
+        obj.append(9)
+        return 1
+    if isinstance(obj, np.ndarray):
+        if obj.size:
+            obj += 1
+            return 1
+        return 0
+    if isinstance(obj, tuple):
+        for e in obj:
+            if isinstance(e, list):
+                e.append(99)
+                n += 1
+            else:
+                n += mutate_leaves(e)
+    elif isinstance(obj, list):
+        for e in obj:
+            n += mutate_leaves(e)
+    elif isinstance(obj, dict):
+        for e in obj.values():
+            n += mutate_leaves(e)
+    elif isinstance(obj, (Obj, Obj2)):
+        for e in obj.__dict__.values():
+            n += mutate_leaves(e)
+    return n
 
 
 def model_slots(tree, out):
@@ -119,6 +186,8 @@ def container_ids(obj, out):
         out.add(id(obj))
         for e in obj.__dict__.values():
             container_ids(e, out)
+    elif isinstance(obj, _mtypes()):
+        out.add(id(obj))
     return out
 
 
@@ -142,6 +211,12 @@ def compare(tree, new, orig, slots_expected, cursor, by_identity, errs, path="$"
         if type(new) is not type(tree["v"]) or new != tree["v"]:
             errs.append("%s: leaf %r != %r" % (path, new, tree["v"]))
         return
+    if t == "mleaf":
+        if not mleaf_equal(new, build_mleaf(tree)):
+            errs.append("%s: non-tensor content %r != %r" % (path, new, build_mleaf(tree)))
+        elif new is orig:
+            errs.append("%s: mutable non-tensor content is shared with the original, not copied" % path)
+        return
     if t == "tuple":
         if not isinstance(new, tuple) or len(new) != len(tree["c"]):
             errs.append("%s: tuple mismatch" % path)
@@ -153,6 +228,12 @@ def compare(tree, new, orig, slots_expected, cursor, by_identity, errs, path="$"
             elif c["t"] == "leaf":
                 if new[i] != c["v"]:
                     errs.append("%s[%d]: leaf in tuple changed" % (path, i))
+            elif c["t"] == "list":
+                if type(new[i]) is not list or new[i] != [x["v"] for x in c["c"]]:
+                    errs.append("%s[%d]: list inside tuple %r != %r" % (path, i, new[i], [x["v"] for x in c["c"]]))
+            elif c["t"] == "mleaf":
+                if not mleaf_equal(new[i], build_mleaf(c)):
+                    errs.append("%s[%d]: non-tensor content inside tuple %r != %r" % (path, i, new[i], build_mleaf(c)))
         return
     if t == "list":
         if type(new) is not list or len(new) != len(tree["c"]):
@@ -217,6 +298,8 @@ def run_case(case):
     kept = []           # keep results alive (ids must stay unique)
     result_containers = set()
     n_ok_construct = 0
+    n_mutated = 0
+    layouts_used = set()
     gsup = torch.Generator().manual_seed(999)
 
     def expected_list(u):
@@ -295,15 +378,17 @@ def run_case(case):
                 compare(tree, new, obj, slots_expected, cur, True, errs)
                 if errs:
                     return violation("reconstruct_list", "%s: %s" % (where, "; ".join(errs[:4])))
+                cids = container_ids(new, set())
+                if cids & orig_containers:
+                    return violation("shares_container", "%s: rebuilt structure shares a container with the original" % where)
+                if cids & result_containers:
+                    return violation("shares_container", "%s: rebuilt structure shares a container with an earlier result" % where)
+                result_containers |= cids
                 if nslots > 0:
-                    cids = container_ids(new, set())
-                    if cids & orig_containers:
-                        return violation("shares_container", "%s: rebuilt structure shares a container with the original" % where)
-                    if cids & result_containers:
-                        return violation("shares_container", "%s: rebuilt structure shares a container with an earlier result" % where)
-                    result_containers |= cids
                     n_ok_construct += 1
                 kept.append(new)
+                if len(op) > 4 and op[4]:
+                    n_mutated += mutate_leaves(new)
         elif name == "cons_flat":
             mode = op[2]
             exp = expected_list(u)
@@ -320,6 +405,23 @@ def run_case(case):
                     a = torch.cat([a.reshape(-1), torch.zeros(2, dtype=a.dtype)])
                 else:
                     mode = "ok"
+                    layout = op[3] if len(op) > 3 and isinstance(op[3], str) else "contig"
+                    if layout != "contig" and a.dim() == 1 and a.numel() > 0:
+                        # the same values, laid out differently in memory (all are ordinary 1-D tensors for the caller)
+                        n = a.numel()
+                        if layout == "offset":
+                            big = torch.zeros(n + 5, dtype=a.dtype)
+                            big[3:3 + n] = a
+                            a = big[3:3 + n]
+                        elif layout == "strided":
+                            big = torch.zeros(2 * n, dtype=a.dtype)
+                            big[::2] = a
+                            a = big[::2]
+                        elif layout == "column":
+                            big = torch.zeros(n, 3, dtype=a.dtype)
+                            big[:, 1] = a
+                            a = big[:, 1]
+                        layouts_used.add(layout)
                 must_fail = (not got_flat[u]) or mode != "ok"
             try:
                 new = packer.construct_from_tensor(a, unique=u)
@@ -345,12 +447,14 @@ def run_case(case):
                         for j in range(nslots):
                             if flat_new[j] is not flat_new[uniq_idx[inverse[j]]]:
                                 return violation("alias_lost", "%s: aliased slots are no longer one tensor object" % where)
-                    cids = container_ids(new, set())
-                    if cids & orig_containers or cids & result_containers:
-                        return violation("shares_container", "%s: rebuilt structure shares a container" % where)
-                    result_containers |= cids
                     n_ok_construct += 1
+                cids = container_ids(new, set())
+                if cids & orig_containers or cids & result_containers:
+                    return violation("shares_container", "%s: rebuilt structure shares a container" % where)
+                result_containers |= cids
                 kept.append(new)
+                if len(op) > 4 and op[4]:
+                    n_mutated += mutate_leaves(new)
         else:
             raise ValueError(op)
         # the original object must be untouched after every step
@@ -366,7 +470,8 @@ def run_case(case):
     # earlier results keep holding what they were given
     nalias = nslots - len(uniq_idx)
     labels = ["slots=%s" % ("0" if nslots == 0 else "1" if nslots == 1 else "2-4" if nslots <= 4 else "5+"),
-              "aliased" if nalias else "noalias", "root=" + tree["t"]]
+              "aliased" if nalias else "noalias", "root=" + tree["t"],
+              "caller_edited_result=%s" % (n_mutated > 0)] + ["flat_layout=" + x for x in sorted(layouts_used)]
     nontrivial = n_ok_construct > 0 and nslots >= 2
     return ok(labels=labels, nontrivial=nontrivial)
 
@@ -396,7 +501,12 @@ _leaf = st.one_of(
     st.builds(lambda v: {"t": "leaf", "v": v}, st.one_of(st.integers(-3, 3), st.none(), st.sampled_from(["a", "xy", 1.5, True]))),
     st.builds(lambda c: {"t": "tuple", "c": c}, st.lists(st.one_of(
         st.builds(lambda v: {"t": "leaf", "v": v}, st.integers(0, 3)),
+        st.builds(lambda c: {"t": "list", "c": [{"t": "leaf", "v": v} for v in c]}, st.lists(st.integers(0, 3), max_size=2)),
+        st.builds(lambda k, v: {"t": "mleaf", "kind": k, "v": v}, st.sampled_from(["set", "bytearray", "ndarray"]),
+                  st.lists(st.integers(0, 5), max_size=3)),
         st.builds(lambda i: {"t": "T", "i": i}, st.integers(0, NPOOL - 1))), max_size=2)),
+    st.builds(lambda k, v: {"t": "mleaf", "kind": k, "v": v}, st.sampled_from(["set", "bytearray", "ndarray"]),
+              st.lists(st.integers(0, 5), max_size=3)),
 )
 _keys = st.sampled_from(["a", "b", "c", "d", "e", "w", "x1", "_p"])
 
@@ -477,6 +587,7 @@ def pool_st(draw):
 
 MODES_LIST = ["ok", "ok", "ok", "short", "long", "badshape"]
 MODES_FLAT = ["ok", "ok", "ok", "short", "long"]
+LAYOUTS = ["contig", "contig", "offset", "strided", "column"]
 
 
 def machine(holder):
@@ -497,13 +608,13 @@ def machine(holder):
         def get_flat(self, u):
             self.case["ops"].append(["get_flat", u])
 
-        @rule(u=st.booleans(), mode=st.sampled_from(MODES_LIST), k=st.integers(0, 11))
-        def cons_list(self, u, mode, k):
-            self.case["ops"].append(["cons_list", u, mode, k])
+        @rule(u=st.booleans(), mode=st.sampled_from(MODES_LIST), k=st.integers(0, 11), mut=st.booleans())
+        def cons_list(self, u, mode, k, mut):
+            self.case["ops"].append(["cons_list", u, mode, k, mut])
 
-        @rule(u=st.booleans(), mode=st.sampled_from(MODES_FLAT))
-        def cons_flat(self, u, mode):
-            self.case["ops"].append(["cons_flat", u, mode])
+        @rule(u=st.booleans(), mode=st.sampled_from(MODES_FLAT), layout=st.sampled_from(LAYOUTS), mut=st.booleans())
+        def cons_flat(self, u, mode, layout, mut):
+            self.case["ops"].append(["cons_flat", u, mode, layout, mut])
 
         def teardown(self):
             if self.case is not None:
@@ -517,7 +628,10 @@ def oneshot_st(draw):
     """single-shot round trips (no history): get then construct, for bulk structure coverage"""
     u = draw(st.booleans())
     flat = draw(st.booleans())
-    ops = [["get_flat" if flat else "get_list", u], ["cons_flat" if flat else "cons_list", u, "ok", 0]]
+    last = ["cons_flat", u, "ok", draw(st.sampled_from(LAYOUTS)), True] if flat else ["cons_list", u, "ok", 0, True]
+    ops = [["get_flat" if flat else "get_list", u], last]
+    if draw(st.booleans()):     # rebuild, let the caller edit the result, rebuild again
+        ops.append(list(last))
     return {"struct": draw(struct_st), "pool": draw(pool_st()), "ops": ops}
 
 
